@@ -228,6 +228,8 @@ def loops(n):
      "via-computed-function": (f"{E(n)} (ㄱ ({dec} ((ㄱㅇ) (ㄱㅇㄱ ㅎ) ㅎㄴ) ㅎㄴ) ({z}) ㅎㄷ ㅎ) ㅎㄴ", "0"),
      # loop(k) = (k==0)(return 0, bind(an action that FAILS, return, \\e. loop(k-1))): the back edge goes through the REJECT handler - the action it returns is the next iteration
      "io-bind-reject": (f"{E(n)} ((ㄱ ㄱㅅㅎㄴ) (((ㄱ ㄱㅅㅎㄴ) ((ㄱ ㄷㅂㅎㄴ ㄷㅈㅎㄴ) ㅎ) ㄱㄹㅎㄷ) ㄱㅅ ((ㄱㅇㄴ ㄴㄱ ㄷㅎㄷ) ㄴㅇ ㅎㄴ ㅎ) ㄱㄹㅎㄹ) ({z}) ㅎㄷ ㅎ) ㅎㄴ", "0"),
+     # retry loop: f(k) = try((k==0)(0, throw), \\e. f(k-1)) - the back edge is what the HANDLER of ㅅㄷ hands back
+     "via-try-handler": (f"{E(n)} ((ㄱ (ㄱ ㄷㅂㅎㄴ ㄷㅈㅎㄴ) ({z}) ㅎㄷ) ((ㄱㅇㄴ ㄴㄱ ㄷㅎㄷ) ㄴㅇ ㅎㄴ ㅎ) ㅅㄷㅎㄷ ㅎ) ㅎㄴ", "0"),
      "io-bind":      (f"{E(n)} ((ㄱ ㄱㅅㅎㄴ) ((ㄱ ㄱㅅㅎㄴ) ((ㄱㅇㄴ ㄴㄱ ㄷㅎㄷ) ㄴㅇ ㅎㄴ ㅎ) ㄱㄹㅎㄷ) ({z}) ㅎㄷ ㅎ) ㅎㄴ", "0"),      # loop(k) = (k==0)(return 0, return 0 >>= \\_. loop(k-1))
     }
 def nontail(n): return f"{E(n)} (ㄱ (ㄴ ({'ㄱㅇㄱ ㄴㄱ ㄷㅎㄷ'} ㄱㅇ ㅎㄴ) ㄷㅎㄷ) (ㄱㅇㄱ ㄱ ㄴㅎㄷ) ㅎㄷ ㅎ) ㅎㄴ"         # f(k) = (k==0)(0, 1 + f(k-1))
@@ -308,7 +310,7 @@ def c05_ladders(r, seed, tier, model_ok):
         bad.append(dict(program=loops(800)["proved-countdown"][0], impl=f"peak live evaluator frames by N: {pf}", model="4 at N = 0 and 5 for every N >= 1 (Loops2.countdown_main: demand depth <= 5 for every N)", which=["frames-vs-theorem"]))
     fr["proved-countdown-by-N"] = pf
     r.slice("iteration_ladders", len(cases), len(cases), [cases[0]["text"], cases[7]["text"]], dict(table=table, observer_max_depth=depths, peak_live_frames_at_50_200_800=fr, host_recursion_limit=400),
-            "nineteen tail-loop families (self, accumulator, through identity / selector / pipes / list / dictionary / collect calls, nested selection, mutual, I/O bind; one of them the program of the theorem countdown_constant_depth) x N in 10..10^5(6) x observer on/off under recursion limit 400; non-tail depths across the frame limit; distinct = all cases", bad)
+            "twenty tail-loop families (self, accumulator, through identity / selector / pipes / list / dictionary / collect calls, nested selection, mutual, I/O bind; one of them the program of the theorem countdown_constant_depth) x N in 10..10^5(6) x observer on/off under recursion limit 400; non-tail depths across the frame limit; distinct = all cases", bad)
     nesting_ladders(r, seed, tier, model_ok)
     if model_ok:
         mc = [dict(text=t) for n in (10, 100) for t, _ in loops(n).values()] + [dict(text=nontail(50))]
